@@ -1,5 +1,5 @@
 """C14 bounded stand-in / replay: cache transparency under id reuse and eviction, order-preserving de-duplication."""
-import gc, random
+import gc, itertools, random
 import networkx as nx
 
 from synkit.Synthesis.Reactor import batch_reactor as BRM
@@ -23,9 +23,153 @@ def make_graph(label, n):
     return g
 
 
+# ---------------------------------------------------------------------------------------------------------------------
+# end-to-end comparisons (bounded): batch vs single, serial vs parallel, cache on vs off, batched vs one-shot clustering
+# ---------------------------------------------------------------------------------------------------------------------
+RULES = ["[CH3:1][CH:2]=[O:3].[NH2:4][CH3:5]>>[CH3:1][CH:2]=[N:4][CH3:5].[OH2:3]",
+         "[CH3:1][C:2](=[O:3])[OH:4].[CH3:5][OH:6]>>[CH3:1][C:2](=[O:3])[O:6][CH3:5].[OH2:4]",
+         "[CH2:1]=[CH2:2].[H:3][H:4]>>[CH2:1]([H:3])[CH2:2][H:4]"]
+SUBSTRATES = ["CC=O.NC", "CCC=O.NC", "CC=O.NCC", "CC(=O)O.CO", "CCC(=O)O.CO", "CC(=O)O.OCC", "C=C.[HH]", "CC=C.[HH]", "CCO", "CC=O", "CC=O.NC",
+              "O=CC.CN", "CC(O)=O.OC", "OCC", "CC(=O)C", "C=CC.[HH]"]
+MAPPED = [("[CH3:1][C:2](=[O:3])[OH:4].[CH3:5][OH:6]>>[CH3:1][C:2](=[O:3])[O:6][CH3:5].[OH2:4]",
+           "[CH3:5][C:1](=[O:2])[OH:3].[CH3:6][OH:4]>>[CH3:5][C:1](=[O:2])[O:4][CH3:6].[OH2:3]"),
+          ("[CH3:1][C:2](=[O:3])[OH:4].[CH3:5][CH2:6][OH:7]>>[CH3:1][C:2](=[O:3])[O:7][CH2:6][CH3:5].[OH2:4]",
+           "[CH3:1][C:2](=[O:3])[OH:4].[CH3:5][CH2:6][OH:7]>>[CH3:1][C:2](=[O:4])[O:7][CH2:6][CH3:5].[OH2:3]"),      # carboxyl oxygens exchanged
+          ("[CH3:1][C:2](=[O:3])[OH:4].[CH3:5][OH:6]>>[CH3:1][C:2](=[O:3])[O:6][CH3:5].[OH2:4]",
+           "[CH3:5][C:1](=[O:2])[OH:3].[CH3:6][OH:4]>>[CH3:5][C:1](=[O:2])[O:3][CH3:6].[OH2:4]"),                      # wrong oxygen leaves
+          ("[cH:1]1[cH:2][cH:3][cH:4][cH:5][c:6]1[Br:7].[OH2:8]>>[cH:1]1[cH:2][cH:3][cH:4][cH:5][c:6]1[OH:8].[BrH:7]",
+           "[CH:1]1=[CH:2][CH:3]=[CH:4][CH:5]=[C:6]1[Br:7].[OH2:8]>>[CH:1]1=[CH:2][CH:3]=[CH:4][CH:5]=[C:6]1[OH:8].[BrH:7]"),  # Kekule form
+          ("[CH3:1][CH:2]=[O:3].[NH2:4][CH3:5]>>[CH3:1][CH:2]=[N:4][CH3:5].[OH2:3]",
+           "[CH3:2][CH:1]=[O:5].[NH2:3][CH3:4]>>[CH3:2][CH:1]=[N:3][CH3:4].[OH2:5]")]
+BALANCE = ["CC=O.CC=O>>CC(O)CC=O", "CCO>>CC=O", "CC(=O)O.CO>>CC(=O)OC.O", "[HH].[HH].O=O>>O.O", "CO.CO>>CO", "C=C.[HH]>>CC", "CC>>C.C",
+           "[Na+].[Cl-]>>[Na]Cl", "CC(=O)[O-].[H+]>>CC(=O)O"]
+
+
+def end_to_end(tier, rng, fails):
+    import networkx as nx, logging
+    logging.disable(logging.CRITICAL)
+    cases = 0
+
+    def bad(fn, msg, clause):
+        fails.append({"function": fn, "violations": ["%s: %s" % (clause, msg)], "tags": {"clause": clause}})
+    # (1) rule application: every entry of a batch equals the entry applied alone; cache on/off; order; worker processes
+    from synkit.Synthesis.Reactor.batch_reactor import BatchReactor
+    key = "syn_fw"
+    subs = SUBSTRATES if tier != "quick" else SUBSTRATES[:11]
+
+    def fit(data, **kw):
+        return [tuple(r[key]) for r in BatchReactor(list(data), react_engine="syn", enable_logging=False, **kw).fit(RULES)]
+    alone = {s: fit([s], cache_enabled=False)[0] for s in set(subs)}
+    for kw, name in (({"cache_enabled": True}, "cache on"), ({"cache_enabled": False}, "cache off"), ({"cache_enabled": True, "cache_maxsize": 2}, "cache of 2"),
+                     ({"cache_enabled": True, "entry_n_jobs": 2}, "2 entry workers"), ({"cache_enabled": True, "parallel_rules": True, "rule_n_jobs": 2}, "parallel rules")):
+        for order in (list(subs), list(reversed(subs)), rng.sample(subs, len(subs))):
+            try:
+                got = fit(order, **kw)
+            except Exception as ex:
+                bad("BatchReactor.fit", "%s raised %r" % (name, ex), "batch-vs-single")
+                break
+            cases += len(order)
+            wrong = [(s, g) for s, g in zip(order, got) if sorted(g) != sorted(alone[s]) or (list(g) != list(alone[s]))]
+            if wrong:
+                bad("BatchReactor.fit", "%s, batch %s: entry %r got %d results, alone %d" % (name, order[:3], wrong[0][0], len(wrong[0][1]), len(alone[wrong[0][0]])),
+                    "batch-vs-single")
+                break
+    # (2) batched clustering == one-shot clustering
+    from synkit.Graph.Matcher.batch_cluster import BatchCluster
+
+    def mol(atoms, bonds):
+        g = nx.Graph()
+        for i, (el, q) in enumerate(atoms, start=1):
+            g.add_node(i, element=el, charge=q)
+        for u, v, o in bonds:
+            g.add_edge(u, v, order=o)
+        return g
+    graphs = [mol([("C", 0), ("O", 0)], [(1, 2, 1)]), mol([("C", 0), ("N", 0)], [(1, 2, 1)]), mol([("O", 0), ("C", 0)], [(1, 2, 1)]),
+              mol([("C", 0), ("C", 0), ("O", 0)], [(1, 2, 1), (2, 3, 1)]), mol([("C", 0), ("O", -1)], [(1, 2, 1)]),
+              mol([("C", 0), ("C", 0), ("N", 0)], [(1, 2, 1), (2, 3, 1)]), mol([("C", 0), ("N", 0)], [(1, 2, 1)]),
+              mol([("O", 0), ("C", 0), ("C", 0)], [(1, 2, 1), (2, 3, 1)]), mol([("C", 0), ("O", 0)], [(1, 2, 2)])]
+
+    def data():
+        return [{"id": i, "G": g, "n": "%dv%de" % (g.number_of_nodes(), g.number_of_edges())} for i, g in enumerate(graphs)]
+
+    def part(ds):
+        groups = {}
+        for d in ds:
+            groups.setdefault(d["class"], set()).add(d["id"])
+        return sorted(sorted(v) for v in groups.values())
+    for attr in ("n", None):
+        try:
+            ref, _ = BatchCluster().fit(data(), None, "G", attr, batch_size=None)
+            for bs in (1, 2, 3, 4, 5):
+                out, templates = BatchCluster().fit(data(), None, "G", attr, batch_size=bs)
+                cases += 1
+                if part(out) != part(ref) or len(templates) != len(part(ref)):
+                    bad("BatchCluster.fit", "batch_size=%d (attribute %r): classes %s, one-shot %s" % (bs, attr, part(out), part(ref)), "batched-vs-oneshot")
+                    break
+        except Exception as ex:
+            bad("BatchCluster.fit", "raised %r" % (ex,), "batched-vs-oneshot")
+    # (3) validation: serial == parallel == one pair at a time, for every flag combination and method
+    from synkit.Chem.Reaction.aam_validator import AAMValidator
+    recs = [{"ref": a, "map": b} for a, b in MAPPED]
+    for method in ("RC", "ITS"):
+        for arom, taut in itertools.product((False, True), repeat=2):
+            try:
+                outs = {}
+                for nj in (1, 2):
+                    r = AAMValidator.validate_smiles(data=[dict(x) for x in recs], ground_truth_col="ref", mapped_cols=["map"], check_method=method,
+                                                     ignore_aromaticity=arom, n_jobs=nj, verbose=0, ignore_tautomers=taut)[0]
+                    outs[nj] = (list(r["results"]), r["accuracy"])
+                single = [AAMValidator.check_pair(dict(x), "map", "ref", method, arom, taut) for x in recs]
+            except Exception as ex:
+                bad("AAMValidator.validate_smiles", "raised %r" % (ex,), "serial-vs-parallel")
+                continue
+            cases += 1
+            if outs[1] != outs[2] or outs[1][0] != single:
+                bad("AAMValidator.validate_smiles", "method %s ignore_aromaticity=%s ignore_tautomers=%s: serial %s parallel %s single %s"
+                    % (method, arom, taut, outs[1], outs[2], single), "serial-vs-parallel")
+    # (4) balance checking
+    from synkit.Chem.Reaction.balance_check import BalanceReactionCheck
+    single = [BalanceReactionCheck.rsmi_balance_check(r) for r in BALANCE]
+    for nj in (1, 2):
+        try:
+            res = BalanceReactionCheck(n_jobs=nj).dicts_balance_check([{"rsmi": r} for r in BALANCE], "rsmi")
+            got = [bool(x["balanced"]) if isinstance(x, dict) and "balanced" in x else x for x in (res[0] + res[1] if isinstance(res, tuple) else res)]
+        except Exception as ex:
+            bad("BalanceReactionCheck.dicts_balance_check", "raised %r" % (ex,), "serial-vs-parallel")
+            continue
+        cases += 1
+        if isinstance(res, tuple):
+            bal = sorted(x["rsmi"] for x in res[0])
+            unb = sorted(x["rsmi"] for x in res[1])
+            if bal != sorted(r for r, b in zip(BALANCE, single) if b) or unb != sorted(r for r, b in zip(BALANCE, single) if not b):
+                bad("BalanceReactionCheck.dicts_balance_check", "n_jobs=%d: balanced %s differs from one-at-a-time %s" % (nj, bal, single), "serial-vs-parallel")
+    # (5) network expansion
+    from synkit.CRN.DAG.syncrn import build_syncrn_from_smarts
+
+    def crn_dump(G):
+        sp = {n: d.get("smiles") for n, d in G.nodes(data=True) if d.get("kind") == "species"}
+        ev = sorted((sorted(sp.get(u, str(u)) for u in G.predecessors(n)), sorted(sp.get(v, str(v)) for v in G.successors(n)), d.get("rule_index"), d.get("step"))
+                    for n, d in G.nodes(data=True) if d.get("kind") != "species")
+        return sorted(map(str, sp.values())), ev
+    crn_rules = ["[C:2]=[O:3].[H:6][N:4][H:7]>>[C:2]=[N:4].[H:6][O:3][H:7]",
+                 "[C:2](=[O:3])[O:4][H:8].[C:5][O:6][H:7]>>[C:2](=[O:3])[O:6][C:5].[H:8][O:4][H:7]"]
+    try:
+        a = crn_dump(build_syncrn_from_smarts(crn_rules, ["CC=O", "NC", "CC(=O)O", "CO"], repeats=2, parallel=False))
+        b = crn_dump(build_syncrn_from_smarts(crn_rules, ["CC=O", "NC", "CC(=O)O", "CO"], repeats=2, parallel=True, max_workers=2))
+        cases += 1
+        if a != b:
+            bad("SynCRN.build", "parallel expansion differs from serial: %s vs %s" % (b, a), "serial-vs-parallel")
+        if not a[1]:
+            bad("SynCRN.build", "no reaction event generated (vacuous comparison)", "vacuity")
+    except Exception as ex:
+        bad("SynCRN.build", "raised %r" % (ex,), "serial-vs-parallel")
+    return cases
+
+
 def run(tw, tier, seed, only=None):
     rng = random.Random(seed)
     fails, cases, nontriv, samples = [], 0, 0, []
+    cases += end_to_end(tier, rng, fails)
     rules = [make_graph("R%d" % i, 2) for i in range(2)]
     for cache_max in (1, 2, 5, 1000):
         ap = FakeApplier("syn", strategy="bt", explicit_h=False, implicit_temp=False, cache_enabled=True, cache_maxsize=cache_max)
@@ -71,8 +215,10 @@ def run(tw, tier, seed, only=None):
             fails.append({"function": "_dedupe", "violations": v, "items": items, "tags": {}})
         if len(samples) < 2:
             samples.append(items)
-    return {"cases": cases, "nontrivial": nontriv, "failures": fails[:20], "samples": samples, "exhaustive": False, "evaluations": tw.evaluations,
-            "bound": "%d cached calls on short-lived substrates (cache sizes 1, 2, 5, 1000; ids reused after collection) compared with uncached calls, plus random de-duplication inputs" % cases,
+    return {"cases": cases, "nontrivial": nontriv, "failures": fails, "samples": samples, "exhaustive": False, "evaluations": tw.evaluations,
+            "bound": "end-to-end: BatchReactor on %d substrates x 3 rules (cache on/off/size 2, 3 batch orders, 2 entry workers, parallel rules) vs each "
+                     "substrate alone; BatchCluster batch sizes 1..5 vs one-shot on 9 small graphs; validate_smiles n_jobs 1/2 vs check_pair (2 methods x 4 flag "
+                     "combinations, 5 mapped pairs); balance check n_jobs 1/2 vs single; SynCRN serial vs 2 workers.  Unit level: %d cached calls on short-lived substrates (cache sizes 1, 2, 5, 1000; ids reused after collection) compared with uncached calls, plus random de-duplication inputs" % (len(SUBSTRATES), cases),
             "rule": "a call is non-trivial when it completes and is compared with the uncached answer"}
 
 
